@@ -33,6 +33,30 @@ def run(rep, tier, seed):
         b.add('%s:%s:%s' % (stack, klass, 'accepted' if out[0] == 'OK' else 'rejected'), pc.model_line(stack, bits), out, pc.parse_model, fails,
               dict(layer='parser', op='parse', stack=stack, bits=bits), key=(stack, bits))
     b.run()
+    # what a parse returned is the caller's: after every returned Buffer was edited in place, the next parse (same stack, any packet) still
+    # returns fields that spell ITS packet -- a parser must not hand out Buffers it keeps for itself
+    from gens import gen_packet
+    from core import mk, L, R, Buffer
+    from schc_run import parser_for
+    for k in range(60 if tier == 'quick' else 600):
+        stack, pkt, _ = gen_packet(rnd, ['IPv6-UDP-CoAP', 'IPv4-UDP-CoAP', 'UDP', 'CoAP', 'SCTP', 'IPv6', 'IPv4'][k % 7])
+        o = impl_outcome(lambda: parser_for(stack).parse(Buffer(pkt, len(pkt) * 8)))
+        if o[0] != 'OK':
+            continue
+        for x_ in [f.value for f in o[1].fields] + [o[1].payload]:
+            impl_outcome(lambda: (x_.shift(-3, inplace=True), x_.pad(L if x_.padding is R else R, inplace=True), x_.__setitem__(slice(0, min(8, x_.length)), mk('10100101')[0:min(8, x_.length)])))
+        stack2, pkt2, _ = gen_packet(rnd, stack)
+        o2 = impl_outcome(lambda: parser_for(stack).parse(Buffer(pkt2, len(pkt2) * 8)))
+        rep.count('parse-after-editing-results', key=('pae', k))
+        rep.oracle_evals += 1
+        if o2[0] == 'OK':
+            from core import bits_of as _bo
+            from gens import b2s as _b2s
+            cat = ''.join(_bo(f.value) for f in o2[1].fields) + _bo(o2[1].payload)
+            if cat != _b2s(pkt2):
+                rep.violation('property', '%s parser: after the Buffers returned by an earlier parse were edited in place, the fields of the next packet no longer spell it' % stack,
+                              dict(layer='parser', op='parse-after-editing-results', stack=stack, first=pkt.hex(), packet=pkt2.hex()))
+                break
     # stacks a caller assembles himself from the public header parsers, the same protocol possibly twice (IP-in-IP tunnels): every header
     # of the packet must be in the field list, once, in order -- fields + payload spell the packet
     from gens import gen_tunnel, b2s
